@@ -59,15 +59,22 @@ SrcTrulyOpaque(r) ==
     \/ /\ r.skind \in {0, 2, 3} /\ r.s_abits = 0           \* alpha-less format ...
        /\ (r.srep # 0 \/ ~r.simple \/ FootprintInside(r))  \* ... and nothing sampled outside a non-repeating image
        /\ KernelUnitGain(r)                                 \* ... and the filter does not scale alpha
-MaskTrulyOpaque(r) == r.mkind \in {0, 2}                   \* absent or solid alpha 1 (bits masks are never flagged here:
-                                                            \* an a8 / component-alpha mask has an alpha channel)
+MaskTrulyOpaque(r) == r.mkind \in {0, 1, 2, 3}             \* absent, solid alpha 1, or a bits mask that is 255 in every
+                                                            \* (component of every) pixel the request samples
+
+(* A reduction is judged against what is TRUE of the request, not against the flags the library happened to     *)
+(* derive: an operator may be replaced by one that gives the same picture whenever source-and-mask / destination *)
+(* really are opaque (a destination is never read outside its bounds, so an alpha-less one is opaque whatever    *)
+(* its repeat mode), and a reduction that needs less than the truth is valid too.                               *)
+ValidUnder(op1, op2, ts, td) ==
+    \E s \in (IF ts THEN {TRUE, FALSE} ELSE {FALSE}), d \in (IF td THEN {TRUE, FALSE} ELSE {FALSE}) :
+        ValidReduction(op1, op2, <<s, d>>, valid)
 
 TDispatch ==
     /\ Is("Dispatch") /\ cur # <<>>
     /\ LET sfl == SetOf(Ev.sfl)  mfl == SetOf(Ev.mfl)  dfl == SetOf(Ev.dfl)
-           cell == <<IS_OPAQUE \in sfl /\ IS_OPAQUE \in mfl, IS_OPAQUE \in dfl>>
        IN  /\ Ev.op_in = cur.op
-           /\ (ValidReduction(Ev.op_in, Ev.op_out, cell, valid)) = TRUE                 \* (i)
+           /\ (ValidUnder(Ev.op_in, Ev.op_out, SrcTrulyOpaque(cur) /\ MaskTrulyOpaque(cur), cur.d_abits = 0)) = TRUE  \* (i)
            /\ ((IS_OPAQUE \in sfl) => SrcTrulyOpaque(cur)) = TRUE                        \* (ii)
            /\ ((IS_OPAQUE \in mfl) => MaskTrulyOpaque(cur)) = TRUE
            /\ ((IS_OPAQUE \in dfl) => cur.d_abits = 0) = TRUE
@@ -87,8 +94,10 @@ SamePicture(a, b, cmp) ==
 TDispatchBare ==
     /\ Is("Dispatch") /\ cur = <<>>
     /\ LET sfl == SetOf(Ev.sfl)  mfl == SetOf(Ev.mfl)  dfl == SetOf(Ev.dfl)
-           cell == <<IS_OPAQUE \in sfl /\ IS_OPAQUE \in mfl, IS_OPAQUE \in dfl>>
-       IN  (ValidReduction(Ev.op_in, Ev.op_out, cell, valid)) = TRUE
+           \* the destination format is in the event: alpha bits = bits 12..15 of the code, type = bits 16..23
+           dtype == Ev.df[1] % 256
+           dopaque == IS_OPAQUE \in dfl \/ ((Ev.df[2] \div 4096) % 16 = 0 /\ dtype \notin {4, 5} /\ Ev.df[1] # 0)
+       IN  (ValidUnder(Ev.op_in, Ev.op_out, IS_OPAQUE \in sfl /\ IS_OPAQUE \in mfl, dopaque)) = TRUE
     /\ UNCHANGED <<valid, cur, first>> /\ Adv
 
 TSkip == /\ (Is("Tables") \/ Is("Lookup")) /\ UNCHANGED <<valid, cur, first>> /\ Adv
